@@ -1880,8 +1880,12 @@ def pretty_str(s, ctx, split_pattern=None):
             pattern=split_pattern,
         ))
 
-        if len(lines) == 1:
-            return flat_version
+        if len(lines) <= 1:
+            # Nothing to split (the empty string yields no line at all):
+            # same result as the single-line path above.
+            if is_native_type:
+                return flat_version
+            return build_fncall(ctx, constructor, argdocs=[flat_version])
 
         parts = intersperse(
             HARDLINE,
